@@ -417,13 +417,19 @@ where
 fn ses_raw(cap: usize, hcap: usize, pi: usize, ops: &str) -> String {
     let mut cbuf = vec![0u8; cap];
     let mut hbuf = vec![0u8; hcap];
-    let mut cli = CliBuilder::default()
-        .writer(Sink::new())
-        .command_buffer(cbuf.as_mut_slice())
-        .history_buffer(hbuf.as_mut_slice())
-        .prompt(PROMPTS[pi])
-        .build()
-        .unwrap();
+    // the default prompt is PROMPTS[1]: with it (and an odd command buffer) the deprecated constructor Cli::new is used instead of the builder
+    #[allow(deprecated)]
+    let mut cli = if pi == 1 && cap % 2 == 1 {
+        embedded_cli::cli::Cli::new(Sink::new(), cbuf.as_mut_slice(), hbuf.as_mut_slice()).unwrap()
+    } else {
+        CliBuilder::default()
+            .writer(Sink::new())
+            .command_buffer(cbuf.as_mut_slice())
+            .history_buffer(hbuf.as_mut_slice())
+            .prompt(PROMPTS[pi])
+            .build()
+            .unwrap()
+    };
     let calls: Rc<RefCell<Vec<String>>> = Rc::new(RefCell::new(vec![]));
     let calls2 = calls.clone();
     if hcap % 2 == 1 {
